@@ -267,7 +267,7 @@ Section Pos.
     specialize (H Hst fuel (init c) [] [] (pos_inv_init c) (Forall_nil _)).
     pose proof (run_gh_out V C g tbl opts buf cap lexer term_f err_f rule_f fuel (init c) [] [] [] eq_refl) as Ho.
     destruct (run_ghx fuel (init c) [] []) as [[[r s] out] vis]. destruct H as [[H1 H2] H3].
-    repeat split; auto.
+    split; [assumption|split; [assumption|split; [assumption|split]]].
     - eapply Forall_impl; [|exact H3]. intros s0 Hs0. apply step_pos, Hs0.
     - cbn [app] in Ho. subst out. apply Forall_filter.
       apply (out_of_visited V C g tbl opts buf cap lexer term_f err_f rule_f pos_inv); [|assumption].
@@ -311,9 +311,9 @@ Section PosTree.
   Lemma Forall_tl {A} (P : A -> Prop) l : Forall P l -> Forall P (tl l).
   Proof. intros H; destruct H; cbn; auto. Qed.
   Lemma Forall_firstn {A} (P : A -> Prop) n l : Forall P l -> Forall P (firstn n l).
-  Proof. rewrite !Forall_forall. intros H x Hx. apply H. eapply firstn_In; eauto. Qed.
+  Proof. intros H. rewrite <- (firstn_skipn n l) in H. apply Forall_app in H. tauto. Qed.
   Lemma Forall_skipn {A} (P : A -> Prop) n l : Forall P l -> Forall P (skipn n l).
-  Proof. rewrite !Forall_forall. intros H x Hx. apply H. eapply skipn_In; eauto. Qed.
+  Proof. intros H. rewrite <- (firstn_skipn n l) in H. apply Forall_app in H. tauto. Qed.
 
   Lemma step_stack s : pinv s -> stack_ok s ->
     match fst (stepx s) with
@@ -323,7 +323,7 @@ Section PosTree.
   Proof.
     intros Hinv [Hv Hc]. apply step_cases.
     - intros _. repeat split; auto.
-    - intros s1 ev1 Hg. apply gct_stacks in Hg as (_ & Hv1 & Hc1 & _). unfold stack_ok. rewrite Hv1, Hc1. auto.
+    - intros s1 ev1 Hg. cbn [fst]. apply gct_stacks in Hg as (_ & Hv1 & Hc1 & _). unfold stack_ok. rewrite Hv1, Hc1. auto.
     - intros cursor cs s1 t ev1 r ev2 _ Hg Ha. cbn [fst].
       pose proof (gct_pos _ _ g tbl opts buf lexer lexer_len no_eof_shift _ _ _ _ Hinv Hg) as ((Hsp & Hit & Hen) & _ & _ & Hgap).
       specialize (Hgap ltac:(discriminate)).
@@ -367,7 +367,7 @@ Section PosTree.
     specialize (H ltac:(intros s [_ Hs]; split; [exact Hs|exact I])).
     assert (Hst : forall s, pinv s /\ stack_ok s -> match fst (stepx s) with inl s' => pinv s' /\ stack_ok s'
                    | inr (r, s') => stack_ok s' /\ match r with Accept t => tree_ok buf t | _ => True end end).
-    { intros s [H1 H2]. pose proof (step_pos _ _ g tbl opts buf cap lexer _ _ _ lexer_len no_eof_shift s H1) as [_ H3].
+    { intros s [H1 H2]. pose proof (step_pos _ _ g tbl opts buf cap lexer tree_term_f tree_err_f tree_rule_f lexer_len no_eof_shift s H1) as [_ H3].
       pose proof (step_stack s H1 H2) as H4. destruct (fst (stepx s)) as [s'|[r s']]; auto. }
     specialize (H Hst fuel (init []) [] []).
     destruct (run_ghx fuel (init []) [] []) as [[[r s] out] vis].
